@@ -54,6 +54,10 @@ def ctx_ok(eng, st, t, cr):
             qforall([j], z3.Implies(z3.And(j >= 0, j < z3.Length(V.items(roles))), V.is_str(V.items(roles)[j]))))))
 
 
+# height of a well-formed check tree: what the recursive walks over a tree decrease (a cyclic object graph is not a tree)
+tree_height = z3.Function('tree_height', V, z3.IntSort())
+
+
 def tree_axioms(eng, st):
     c = z3.Const('wt!c', V)
     r = V.ref(c)
@@ -61,11 +65,13 @@ def tree_axioms(eng, st):
     seq = V.items(z3.Select(st.H('$val'), V.ref(rules)))
     j = z3.Int('wt!j')
     body = z3.And(
-        eng.isinst(c, 'BaseCheck'), fp_or_fresh(r),
+        eng.isinst(c, 'BaseCheck'), fp_or_fresh(r), tree_height(c) >= 0,
         z3.Implies(z3.Or(eng.isinst(c, 'AndCheck'), eng.isinst(c, 'OrCheck')),
                    z3.And(_list_obj(eng, st, rules), fp_or_fresh(V.ref(rules)),
-                          qforall([j], z3.Implies(z3.And(j >= 0, j < z3.Length(seq)), wf_tree(seq[j]))))),
-        z3.Implies(eng.isinst(c, 'NotCheck'), wf_tree(z3.Select(st.H('rule'), r))),
+                          qforall([j], z3.Implies(z3.And(j >= 0, j < z3.Length(seq)),
+                                                  z3.And(wf_tree(seq[j]), tree_height(seq[j]) < tree_height(c)))))),
+        z3.Implies(eng.isinst(c, 'NotCheck'), z3.And(wf_tree(z3.Select(st.H('rule'), r)),
+                                                     tree_height(z3.Select(st.H('rule'), r)) < tree_height(c))),
         z3.Implies(eng.isinst(c, 'Check'), z3.And(V.is_str(z3.Select(st.H('kind'), r)),
                                                   V.is_str(z3.Select(st.H('match'), r)))))
     return [qforall([c], z3.Implies(wf_tree(c), body), patterns=[wf_tree(c)])]
@@ -107,5 +113,5 @@ def eval_axioms(eng, st):
     return [qforall([c, e], z3.Implies(wf_eval(c, e), body), patterns=[wf_eval(c, e)])]
 
 
-HEAP_IMPLICIT = {'wf_eval', 'wf_tree', 'pr', 'EV', 'EVX', 'EV3', 'EVX3', 'http_ctx'}
+HEAP_IMPLICIT = {'wf_eval', 'wf_tree', 'tree_height', 'pr', 'EV', 'EVX', 'EV3', 'EVX3', 'http_ctx'}
 EV_SYMS = {'EV', 'EVX', 'EV3', 'EVX3'}
